@@ -126,7 +126,8 @@ type RValue struct {
 	v     Value // the value (for non-addressable) ...
 	addr  *Ptr  // ... or its address (addressable / settable)
 	valid bool
-	ro    bool // obtained through an unexported field
+	ro    bool // sticky read-only: obtained through an unexported non-embedded field
+	ero   bool // obtained through an unexported embedded field (not inherited by its exported fields)
 }
 
 func isNilValue(v Value) bool {
